@@ -112,6 +112,8 @@ def make_array(recipe):
         raise ValueError(kind)
     if recipe.get("center"):
         a = a - a.mean(axis=0)
+    if recipe.get("scale_pow2"):
+        a = a * 2.0 ** int(recipe["scale_pow2"])  # exact rescaling: tiny / huge length scales
     if recipe.get("squeeze"):
         a = a.reshape(-1) if d == 1 else a
     return np.ascontiguousarray(a, dtype=np.float64)
